@@ -45,6 +45,10 @@ Lemma ob_no_h2_config : set_h2_config_call_sites = 0.
 Proof. vm_compute. reflexivity. Qed.
 Lemma ob_transport_tls_from_client_config : transport_tls_from_client_config = true.
 Proof. vm_compute. reflexivity. Qed.
+(* the roots an origin certificate is verified against are those of THIS configuration: loadRootCAs takes a
+   fresh copy of the system pool per call and nothing at package level holds a pool *)
+Lemma ob_root_pool_fresh_per_config : root_pool_fresh_per_config = true.
+Proof. vm_compute. reflexivity. Qed.
 (* InsecureSkipVerify is assigned in exactly one place, under `if c.Insecure` *)
 Lemma ob_insecure_only_under_flag : insecure_only_under_flag = true /\ insecure_skip_verify_sites = 1.
 Proof. vm_compute. split; reflexivity. Qed.
